@@ -113,6 +113,10 @@ FAULTS = [
     ("wire zq : «300»;", "InvalidWireWidth"),
     ("wire zq : 8; zq = «999999999999999999999999999999999999999999999»;", "InvalidConstant"),
     ("wire zq : 8; zq = 1 «$» 2;", "LexicalError"),
+    # two faults in one statement: the missing '=' is a syntax error, so nothing else is (or may be) said about the mux
+    ("wire zq : 4; «zq» [ pc == 1 : 0b10; 1 : 0b11; ];", "MissingAssignmentMux"),
+    ("wire zq : 4; «zq» [ pc == 1 : 2; ];", "MissingAssignmentMux"),
+    ("wire zq : 4; «zq» [ 1 : 2; pc == 1 : 3; ];", "MissingAssignmentMux"),
     # every way a literal can be out of range: decimal, hexadecimal, binary with more than 128 digits
     ("wire zq : 8; zq = «0x%s»;" % ("f" * 33), "InvalidConstant"),
     ("wire zq : 8; zq = «0x1%s» + 1;" % ("0" * 32), "InvalidConstant"),
@@ -230,8 +234,10 @@ def located_part(report, rng, tier):
     stats["error_variants_rendered"] = n_v
     import frontcheck
     order = list(cases)
-    rng.shuffle(order)
-    fres = frontcheck.compare(report, {cid: cases[cid]["hcl"] for cid in order}, impl, "diag", limit=250 if tier == "quick" else 6000)
+    head, rest = order[:2 * len(FAULTS)], order[2 * len(FAULTS):]      # every template twice (once plain, once with trivia), then a sample
+    rng.shuffle(rest)
+    order = head + rest
+    fres = frontcheck.compare(report, {cid: cases[cid]["hcl"] for cid in order}, impl, "diag", limit=2 * len(FAULTS) + (120 if tier == "quick" else 6000))
     for k_, v_ in fres.items():
         stats["model_" + k_] = v_
     for cid, c in cases.items():
